@@ -62,6 +62,9 @@ def _basis_of(E: Engine, c: ClassInfo) -> str | None:
     return None
 
 
+from .. import sym as _sym17
+
+
 def _S(E, f, inline=True):
     from .symutil import S
 
@@ -278,6 +281,34 @@ def run(E: Engine, rep: Report, tier: str) -> dict:
         rep.check(refers, "TABLE", f"BaseDevice._to_abstract_repr|{t_[2][1]}|elided-only-when-equal-to-default", "the condition for writing the key consults the dataclass defaults", f"BaseDevice._to_abstract_repr writes '{t_[2][1]}' only under `{_show_(l.cond)[:120]}`, which does not consult the class's own default: when the key is left out the decoder falls back to that default, so a value that differs from it (an empty tuple where the class defaults to (DMM(),)) does not round-trip", E.where(bta, l.node))
     if n_cond < 1:
         raise AnalysisError("anchor: the conditionally written key (dmm_objects) of BaseDevice._to_abstract_repr was not found")
+    # the channel serializers agree with it (siblings): an optional channel / DMM field is dropped from the JSON only
+    # when it equals the dataclass default the decoder falls back to -- a truthiness test also drops a legal 0
+    # (DMM.total_bottom_detuning = 0 decodes to None, and a physical Device then refuses the "virtual" DMM)
+    for fq_ in ("pulser.channels.base_channel.Channel._to_abstract_repr", "pulser.channels.dmm.DMM._to_abstract_repr"):
+        fo = E.fn(fq_)
+        pops = [l for l in _S(E, fo, inline=False).calls("pop") if l.value[2] and "OPTIONAL_ABSTR" in _show_(l.value[2][0])[:200]]
+        if not pops:
+            rep.excepted("TABLE", f"{fo.short}|optional-field-elided-only-when-equal-to-default", "no pop() of an OPTIONAL_ABSTR_* field recognised: not decided", E.where(fo))
+        for l in pops:
+            refers = any(x[0] == "call" and x[1] == ("name", "get_dataclass_defaults") for x in _subterms_(l.cond))
+            rep.check(refers, "TABLE", f"{fo.short}|optional-field-elided-only-when-equal-to-default", "popped under `params[p] == defaults[p]`", f"{fo.short} leaves an optional field out under `{_show_(l.cond)[:120]}`, which does not consult the dataclass defaults: the decoder falls back to the default, so a value that is falsy but not the default (total_bottom_detuning = 0, default None) does not round-trip", E.where(fo, l.node))
+    # a complex value is written as its real part alone only when the imaginary part is EXACTLY zero: a tolerance
+    # (np.isclose, abs(imag) < eps) drops small imaginary parts, and the decoded object differs from the original
+    enc = E.fn("pulser.json.abstract_repr.serializer.AbstractReprEncoder.default")
+    n_re = 0
+    for l in _S(E, enc, inline=False).logged("return"):
+        v_ = _unobj_(l.value) if l.value is not None else None
+        if v_ is None or v_[0] != "attr" or v_[2] != "real":
+            continue
+        for x in _sym17.conj_of(l.cond):
+            if "imag" not in _show_(x)[:200]:
+                continue
+            n_re += 1
+            im = ("attr", v_[1], "imag")
+            exact = x == ("not", im) or (x[0] == "cmp" and x[1] == "Eq" and {x[2], x[3]} in ({im, ("const", 0)}, {im, ("const", 0.0)}))
+            rep.check(exact, "TABLE", "AbstractReprEncoder.default|complex-written-as-real-only-when-imag-is-exactly-0", "`o.imag == 0`", f"a complex value is written as its real part under `{_show_(x)[:100]}`: a tolerance drops imaginary parts that are small but not zero (4e-9j in an effective noise operator or a state amplitude), so the decoded object is not equal to the original", E.where(enc, l.node))
+    if n_re == 0:
+        rep.excepted("TABLE", "AbstractReprEncoder.default|complex-written-as-real-only-when-imag-is-exactly-0", "no `return o.real` under a test of the imaginary part recognised: not decided", E.where(enc))
     # a register is written with the coordinates it holds (`_coords` / `_coords_arr`), as BaseRegister._to_dict and
     # __eq__ read them -- not with the rounded / sorted copies kept for hashing (a 6-decimal rounding moves an atom and
     # can make the decoded register unequal to the original)
